@@ -168,6 +168,101 @@ Definition get_config_value_raw (sections : list (key * cv)) (section k : key) :
   | _ => None
   end.
 
+(* ---- LanguageConfig getters and their coercions (shapes pinned by tools/translators/c13_pins.json) ---------- *)
+
+Inductive cfg_result (A : Type) :=
+| CfgOk (a : A)
+| CfgKeyError
+| CfgTypeError
+| CfgUnmodelled.           (* text of a list/float/dict: outside the model *)
+Arguments CfgOk {A} a.
+Arguments CfgKeyError {A}.
+Arguments CfgTypeError {A}.
+Arguments CfgUnmodelled {A}.
+
+Fixpoint digit_codes (u : Decimal.uint) : list N :=
+  match u with
+  | Decimal.Nil => []
+  | Decimal.D0 r => 48 :: digit_codes r | Decimal.D1 r => 49 :: digit_codes r | Decimal.D2 r => 50 :: digit_codes r
+  | Decimal.D3 r => 51 :: digit_codes r | Decimal.D4 r => 52 :: digit_codes r | Decimal.D5 r => 53 :: digit_codes r
+  | Decimal.D6 r => 54 :: digit_codes r | Decimal.D7 r => 55 :: digit_codes r | Decimal.D8 r => 56 :: digit_codes r
+  | Decimal.D9 r => 57 :: digit_codes r
+  end.
+
+(* str(z) *)
+Definition py_str_int (z : Z) : list N :=
+  match Z.to_int z with
+  | Decimal.Pos u => digit_codes u
+  | Decimal.Neg u => 45 :: digit_codes u
+  end.
+
+(* str(x) of a leaf value *)
+Definition py_str (a : atom) : option (list N) :=
+  match a with
+  | ANone => Some [78; 111; 110; 101]
+  | ABool true => Some [84; 114; 117; 101]
+  | ABool false => Some [70; 97; 108; 115; 101]
+  | AInt z => Some (py_str_int z)
+  | AStr s => Some s
+  | AOpaque _ => None
+  end.
+
+(* s.lower(): ASCII; no non-ASCII character lower-cases to a letter of "false", so comparing with "false" is exact *)
+Definition ascii_lower (s : list N) : list N := map (fun c => if (65 <=? c) && (c <=? 90) then c + 32 else c) s.
+
+(* _get_config_value_raw under @no_default_value: dflt = None models _UNSET; result None = KeyError *)
+Definition config_raw (sections : list (key * cv)) (section k : key) (dflt : option cv) : option cv :=
+  match dget section sections with
+  | Some (Node m) => match dget k m with
+                     | Some v => Some (unwrap_default v)
+                     | None => option_map unwrap_default dflt
+                     end
+  | _ => option_map unwrap_default dflt
+  end.
+
+(* get_config_value(section, key, default_value: Optional[str]) -> str *)
+Definition config_value (sections : list (key * cv)) (section k : key) (dflt : option (list N)) : cfg_result (list N) :=
+  match config_raw sections section k (option_map (fun s => Leaf false (AStr s)) dflt) with
+  | None => CfgKeyError
+  | Some (Leaf _ ANone) => CfgOk []                       (* "if we get None ... we wanted an empty string" *)
+  | Some (Leaf _ a) => match py_str a with Some s => CfgOk s | None => CfgUnmodelled end
+  | Some (Node _) => CfgUnmodelled
+  end.
+
+(* get_config_value_as_bool(section, key, default_value: bool) -> bool *)
+Definition config_value_as_bool (sections : list (key * cv)) (section k : key) (dflt : bool) : cfg_result bool :=
+  match config_value sections section k (Some (if dflt then [116; 114; 117; 101] else [102; 97; 108; 115; 101])) with
+  | CfgOk result =>
+      if str_eqb (ascii_lower result) [102; 97; 108; 115; 101] || str_eqb result [48] then CfgOk false
+      else CfgOk (match result with [] => false | _ => true end)
+  | CfgKeyError => CfgKeyError
+  | CfgTypeError => CfgTypeError
+  | CfgUnmodelled => CfgUnmodelled
+  end.
+
+(* get_config_value_as_dict(section, key, default_value: Optional[dict]) -> dict  (the stored dict itself) *)
+Definition config_value_as_dict (sections : list (key * cv)) (section k : key) (dflt : option (list (key * cv)))
+  : cfg_result (list (key * cv)) :=
+  match config_raw sections section k (option_map Node dflt) with
+  | None => CfgKeyError
+  | Some (Node m) => CfgOk m
+  | Some (Leaf _ _) => match dflt with None => CfgTypeError | Some d => CfgOk d end
+  end.
+
+(* Language.get_option(key, default): the raw entry of the validated options map (a DefaultValue stays wrapped) *)
+Definition get_option (options : list (key * cv)) (k : key) (dflt : cv) : cv :=
+  match dget k options with Some v => v | None => dflt end.
+
+(* what the truth-table of get_config_value_as_bool is for each documented value form *)
+Definition bool_table (a : atom) : option bool :=
+  match a with
+  | ANone => Some false
+  | ABool b => Some b
+  | AInt z => Some (negb (Z.eqb z 0))
+  | AStr s => Some (negb (str_eqb (ascii_lower s) [102; 97; 108; 115; 101] || str_eqb s [48] || match s with [] => true | _ => false end))
+  | AOpaque _ => None
+  end.
+
 (* ---- Language: options seen by templates ------------------------------------------------ *)
 
 (* Language.__init__: self._language_options = self._validate_language_options(
@@ -324,6 +419,27 @@ Definition cli_ops (arg : key -> option atom) (files : list cv) : list bop :=
     | CliOverrideOptions k => [SetOverride k (Some (Node (cli_language_options arg)))]
     | CliCreate => []
     end) cli_calls.
+
+(* ---- observing a context completely ---------------------------------------------------------- *)
+
+(* LanguageContext.get_supported_languages(): every section of the context's configuration is a language; the non-target
+   ones are constructed on first use (their validators run in place on the context's configuration).  Result: the options
+   every non-target language reports (None = its constructor raised), keyed by section name, and the sections afterwards. *)
+Definition language_of_section (n : key) : key := skipn 13 n.     (* strip "nunavut.lang." *)
+
+Fixpoint observe_langs (names : list key) (target : key) (s : list (key * cv))
+  : list (key * option (list (key * cv))) * list (key * cv) :=
+  match names with
+  | [] => ([], s)
+  | n :: r =>
+      if str_eqb n target then observe_langs r target s
+      else let '(o, s1) := language_init (lang_kind_of (language_of_section n)) s n in
+           let '(os, s2) := observe_langs r target s1 in
+           ((n, o) :: os, s2)
+  end.
+
+Definition observe_ctx (target : key) (s : list (key * cv)) : list (key * option (list (key * cv))) * list (key * cv) :=
+  observe_langs (map fst s) target s.
 
 (* ---- several builders in one process ------------------------------------------------------- *)
 
